@@ -60,6 +60,16 @@ SANS = {          # origin identities: (SAN list, common name)
     "ip": ([("IP Address", "127.0.0.1"), ("IP Address", "::1")], "unrelated-cn"),
     "cn_only": ([], DNS),
 }
+# identities used in the fake tier only (no loopback server carries them): shapes on which a name matcher
+# can go wrong without any of the identities above noticing — a wildcard entry with FEWER labels than the
+# host, and an IP address written as dNSName text (RFC 6125: never matches an IP host)
+SANS_FAKE = {
+    "wild_short": ([("DNS", "*.example")], "unrelated-cn"),
+    "wild_long": ([("DNS", "*.www.example.test")], "unrelated-cn"),
+    "ip_as_dns": ([("DNS", "127.0.0.1"), ("DNS", "::1"), ("DNS", "*.0.0.1")], "unrelated-cn"),
+}
+REAL_SANS = list(SANS)
+SANS.update(SANS_FAKE)
 PSANS = {"match": ([("DNS", PROXY)], "unrelated-cn"), "mismatch": ([("DNS", "other.example.test")], "unrelated-cn")}
 AH = {"unset": None, "false": False, "dns": DNS, "wrong": "wrong.example.test", "v4": "127.0.0.1",
       "v6b": "[::1]", "empty": "", "star": "x.example.test"}
@@ -241,7 +251,8 @@ class Loopback:
         self.origins = {}           # (issuer, san) -> {"port": p, "der": bytes}
         self.proxies = {}           # ("plain",) or (issuer, psan) -> {"port": p, "der": bytes}
         for issuer in "AB":
-            for san, ident in SANS.items():
+            for san in REAL_SANS:
+                ident = SANS[san]
                 self.origins[(issuer, san)] = self.start(self.server_ctx(issuer, ident), self.origin_handler, "origin")
             for psan, ident in PSANS.items():
                 self.proxies[(issuer, psan)] = self.start(self.server_ctx(issuer, ident), self.proxy_handler, "proxy")
@@ -471,7 +482,7 @@ class C07(Prop):
         c["ctx_kind"] = "stdlib" if rng.random() < 0.2 else "native"
         c["ca"] = rng.choice(["none", "fileA", "fileA", "fileA", "dataA", "dataA", "fileB", "fileB"])
         c["issuer"] = rng.choice(["A", "A", "B"] if tier == "real" else ["A", "A", "B", "S"])
-        c["san"] = rng.choice(list(SANS))
+        c["san"] = rng.choice(REAL_SANS if tier == "real" else list(SANS))
         if tier == "real" and c["backend"] == "pyopenssl" and c["ca"] == "dataA":
             # PyOpenSSLContext.load_verify_locations(None, None, cadata) raises "unable to load trusted
             # certificates" before looking at cadata (fails closed; inside ssl_wrap_socket, outside the model)
@@ -504,6 +515,14 @@ class C07(Prop):
                     c.update(mode="ts", cert_reqs=cr, pfp=pfp, fp=fp)
                     yield c
         yield from self.core_cases("fake", "ssl")
+        # name shapes of SANS_FAKE wherever urllib3 itself (not the TLS backend) does the matching
+        for san in SANS_FAKE:
+            for host in ("plain", "v4", "v6"):
+                for backend, ctx, ah in (("ssl", "none", "dns"), ("ssl", "none", "v4"), ("ssl", "nocheck", "unset"),
+                                         ("pyopenssl", "none", "unset"), ("ssl", "none", "unset"), ("ssl", "none", "v6b")):
+                    c = dict(DEFAULT_CASE)
+                    c.update(san=san, host=host, backend=backend, ctx=ctx, ah=ah)
+                    yield c
         # the OS default store (scripted: it holds CA "S" only) must be consulted iff no CA material at all
         # was configured and urllib3 built the context itself
         for ca, ctx, ctx_ca, backend, mode, cr in itertools.product(
